@@ -146,7 +146,10 @@ unsafe fn level_swap<M: Manager>(
                         children
                     }
                     node => {
-                        debug_assert!(node.level() > lower_no);
+                        // Level numbers of inner nodes are the "pre" numbers
+                        // (they are updated lazily), so they cannot be
+                        // compared against the position `lower_no`.
+                        debug_assert_ne!(node.level(), upper_no_pre);
                         // The child is below the lower level. What the
                         // cofactors with respect to the skipped level are
                         // depends on the reduction rules (for BDDs, it is
